@@ -167,8 +167,16 @@ def fast_cases(tier, seed=0):
 # oracle
 # -------------------------------------------------------------------------------------------------
 
+def _single_thread():
+    """pyiga assembles with a Python thread pool of cpu_count() threads by default; the enumeration is parallel
+    over cases (forked workers), so every worker assembles single-threaded (documented API)"""
+    import pyiga
+    pyiga.set_max_threads(1)
+
+
 def _check(case, stats=None):
     kind = case["kind"]
+    _single_thread()
     if kind == "1d":
         from props import c09_oned
         return c09_oned.check_1d(case, stats)
@@ -230,6 +238,7 @@ def _warm(k):
     from pyiga import assemble
     from props.c09_util import axis_objects, make_geo, box_of
     from props import c09_tp
+    _single_thread()
     d, form = k
     axes = [[1, "U1", []]] * d
     kvs = tuple(axis_objects(a)[0] for a in axes)
@@ -260,6 +269,12 @@ def _nontrivial(case):
     return True
 
 
+def _children_cpu():
+    import resource
+    r = resource.getrusage(resource.RUSAGE_CHILDREN)
+    return r.ru_utime, r.ru_stime
+
+
 def run(ctx):
     out = Outcome()
     cs = cases(ctx.tier, ctx.seed)
@@ -269,13 +284,18 @@ def run(ctx):
     ctx.log("compiled string forms ready%s" % ("" if not any(warm) else " (errors: %s)" % [w for w in warm if w]))
     # heavy cases first for load balance inside each kind; results are reported in enumeration order
     allstats = {}
+    cpu_total = [0.0, 0.0]
     for kind in sorted(order, key=order.get):
         sub = [c for c in cs if c["kind"] == kind]
         if not sub:
             continue
         kw = dict(min_parallel=4, chunk=1 if kind in ("fast", "1d", "tpgeo") else None)
+        u0, s0 = _children_cpu()
         with _quiet_compiler():
             res = par.pmap(_w, sub, **kw)
+        u1, s1 = _children_cpu()
+        cpu_total[0] += u1 - u0
+        cpu_total[1] += s1 - s0
         ncalls = 0
         nviol = 0
         for case, probs, calls, stats in res:
@@ -295,9 +315,11 @@ def run(ctx):
                 out.add_violation(key, msg, case)
         out.part(kind, cases=len(sub), library_calls=ncalls, problems=nviol)
         out.sample(sub[len(sub) // 2], limit=12)
-        ctx.log("%-6s cases=%d library calls compared=%d problems=%d" % (kind, len(sub), ncalls, nviol))
+        ctx.log("%-6s cases=%d library calls compared=%d problems=%d  cpu user=%.0fs sys=%.0fs"
+                % (kind, len(sub), ncalls, nviol, u1 - u0, s1 - s0))
     out.evaluations = out.transitions
     out.traces = out.states
+    out.extra["cpu_seconds_workers"] = {"user": round(cpu_total[0], 1), "sys": round(cpu_total[1], 1)}
     out.extra["worst_relative_deviation"] = {k: float("%.3g" % v) for k, v in sorted(allstats.items()) if not k.startswith("eig:")}
     out.extra["min_scaled_eig"] = {k: float("%.3g" % v) for k, v in sorted(allstats.items()) if k.startswith("eig:")}
     out.rule = ("state = one enumerated shape: (degree, breakpoint pattern from %s, interior multiplicity vector) [1d], ordered "
